@@ -440,7 +440,14 @@ var c14ProcOps = []struct {
 		out, fe := c14KeptTemplate().String("list", map[string]any{"user": "Bob", "role": "visitor"})
 		return fmt.Sprint("OUT:", out, "|", fe)
 	}},
-	// values that print alike but are not alike; requests whose spelled-out arguments run together alike
+	// an alias spelled in a component name of the kept template, and the same characters as a plain string
+	{"card page of the kept template (it names its component ~card)", func() string {
+		out, fe := c14KeptTemplate().String("cards", map[string]any{"user": "Ann"})
+		return fmt.Sprint("OUT:", out, "|", fe)
+	}},
+	{"the strings ~card, ~main and components/card printed", func() string {
+		return observe(textwire.EvaluateString("{{ \"~card\" }}|{{ '~card' }}|{{ \"~main\" }}|{{ \"components/card\" }}|{{ \"~card\".len() }}", nil))
+	}},
 	{"print the slice []any{1, 2}", func() string {
 		return observe(textwire.EvaluateString("{{ v }}|{{ v[0] + 1 }}|{{ v.len() }}", map[string]any{"v": []any{1, 2}}))
 	}},
@@ -542,7 +549,7 @@ func init() {
 		c14ProcRoot, _ = os.Getwd()
 		for _, site := range []string{"site-a", "site-b"} {
 			files := map[string]string{"views/index.tw": "@use(\"~main\")@insert(\"body\")index of " + site + " for {{ who }}@end", "views/layouts/main.tw": "<" + site + ">@reserve(\"body\")</" + site + ">",
-				"views/bad.tw": "line one of " + site + "\n{{ nothing.here }}", "views/sum.tw": "{{ a + b }}", "views/layouts/bare.tw": "bare layout for {{ user }}@if(user == \"Ann\") (hello Ann)@end", "views/usesbare.tw": "@use(\"~bare\")ignored page text",
+				"views/bad.tw": "line one of " + site + "\n{{ nothing.here }}", "views/sum.tw": "{{ a + b }}", "views/layouts/bare.tw": "bare layout for {{ user }}@if(user == \"Ann\") (hello Ann)@end", "views/components/card.tw": "<card {{ t }}>@slot</card>", "views/cards.tw": "@component(\"~card\", {t: user})@slot{{ \"~card\" }}@end@end@component(\"components/card\", {t: \"~card\"})", "views/usesbare.tw": "@use(\"~bare\")ignored page text",
 				"views/list.tw": "{{ [{name: user, id: 7}].join(\"; \") }}|{{ \"admin,editor\".contains(role) ? \"staff\" : \"guest\" }}|{{ [[user], [0]] }}|@each(n in [1, 2, 3]){{ true.then({pass: n, who: user}) }} @end"}
 			if site == "site-b" {
 				files["views/bad.tw"] = "\n\n" + files["views/bad.tw"]
